@@ -24,6 +24,7 @@ struct op {
     enum opk k;
     int len;   /* send: message length; recv: capacity */
     int m;     /* send: message number in this direction */
+    int hi;    /* send: the length offered is hi * 2^32 + len (C03: "far larger" sizes that wrap a 32-bit length) */
 };
 
 struct side {
@@ -392,8 +393,14 @@ static int do_send(struct side *x, struct op *o)
         int64_t before[8];
         int have_before = x->cnt_valid;
         memcpy(before, x->prev_cnt, sizeof before);
-        int rc = API(nm, !x->blocking, xcm_send(x->s, buf + sent_total, o->len - sent_total));
+        size_t offered = ((size_t)o->hi << 32) + (size_t)(o->len - sent_total);
+        int rc = API(nm, !x->blocking, xcm_send(x->s, buf + sent_total, offered));
         int err = rc < 0 ? errno : 0;
+        if (!g_bytestream && offered > MAXMSG && rc >= 0) {
+            char sig[128];
+            snprintf(sig, sizeof sig, "C03/oversized-send-accepted/%s/tp=%s", o->hi ? "len=k*2^32+n" : "len>65535", g_tp);
+            V("C03", sig, "xcm_send of %zu bytes (maximum message size is %d) returned %d instead of -1/EMSGSIZE", offered, MAXMSG, rc);
+        }
         x->last_rc = rc;
         x->last_errno = err;
         mc_observe("%s send m%d len=%d -> %d %s", x->name, m, o->len - sent_total, rc, rc < 0 ? errname(err) : "");
@@ -778,7 +785,12 @@ static void build_script(const char *name)
         add(&B, OP_RECV_EOF, MAXMSG);
     } else if (strcmp(name, "T5") == 0) {     /* sizes: 0, 1, max, max+1, huge (C03) */
         add(&A, OP_SEND, 0); add(&A, OP_SEND, 1); add(&A, OP_SEND, MAXMSG); add(&A, OP_SEND, MAXMSG + 1);
-        add(&A, OP_SEND, 1 << 20); add(&A, OP_SEND, 2); add(&A, OP_FINISH, 0);
+        add(&A, OP_SEND, 1 << 20);
+        if (!g_bytestream) {                  /* k * 2^32 + n: must not be mistaken for an n-byte message */
+            add(&A, OP_SEND, 1); A.ops[A.nops - 1].hi = 1;
+            add(&A, OP_SEND, MAXMSG); A.ops[A.nops - 1].hi = 2;
+        }
+        add(&A, OP_SEND, 2); add(&A, OP_FINISH, 0);
         add(&B, OP_RECV, MAXMSG); add(&B, OP_RECV, MAXMSG); add(&B, OP_RECV, MAXMSG);
     } else if (strcmp(name, "T6") == 0) {     /* ping-pong */
         add(&A, OP_SEND, 4); add(&A, OP_RECV, MAXMSG); add(&A, OP_SEND, 9); add(&A, OP_RECV, MAXMSG);
